@@ -59,8 +59,8 @@ func GenerateC05(r *rec.Rand, o GenOpts) *Scenario {
 		{Name: "blocked", RW: This(), Restr: []Restr{RObj("user"), RSet("team", "member")}},
 		{Name: "allowed", RW: This(), Restr: []Restr{RObj("user"), RWild("user"), RSet("group", "member")}},
 	}
-	switch r.Intn(7) {
-	case 6:
+	switch r.Intn(8) {
+	case 6, 7:
 		return g.prefixTypes()
 	case 0: // userset + TTU
 		g.s.Shape = "c05-userset+ttu"
